@@ -29,10 +29,14 @@ func c25ClearsBuffer(s *c02Src) (Tri, string) {
 		}
 		return true
 	})
-	fi, _ := c02AnyIdx(s.w, fd, c02Named("fw.buffer.Flush"))
+	// flushLocked takes the entries out of the buffer (Flush, or GetEntriesAndClear) before the first write
+	fi, _ := c02AnyIdx(s.w, fd, c02Named("fw.buffer.Flush", "fw.buffer.GetEntriesAndClear"))
 	wi, _ := c02AnyIdx(s.w, fd, c02Named("fw.file.Write"))
 	if fi < 0 || wi < 0 {
 		return Unknown, c02Where(s.w, fd)
+	}
+	if len(s.w.Calls(fd, "fw.buffer.GetEntriesAndClear")) > 0 {
+		return TriOf(fi < wi), c02Where(s.w, fd) // GetEntriesAndClear always empties
 	}
 	return TriOf(resets && fi < wi), c02Where(s.b, where)
 }
@@ -48,6 +52,19 @@ func c25FlushFailure(s *c02Src) (rollsBack, restores Tri, where string) {
 	}
 	n := 0
 	rollsBack, restores = No, No
+	// the repaired shape: a `rollback` closure that truncates to the start offset, seeks back and
+	// restores the buffer, called from the error branch of both block writes, plus a dirtyTail retry
+	rbDef := ""
+	ast.Inspect(fd.Body, func(x ast.Node) bool {
+		if as, ok := x.(*ast.AssignStmt); ok && len(as.Lhs) == 1 && s.w.Str(as.Lhs[0]) == "rollback" {
+			rbDef = s.w.Str(as.Rhs[0])
+		}
+		return true
+	})
+	rbOK := strings.Contains(rbDef, "fw.file.Truncate(start)") && strings.Contains(rbDef, "fw.file.Seek(start, io.SeekStart)") &&
+		strings.Contains(rbDef, "fw.buffer.Restore(entries)") && strings.Contains(rbDef, "fw.dirtyTail =") &&
+		s.w.Contains(fd, "if fw.dirtyTail {")
+	blockWrites, rolled := 0, 0
 	for _, st := range fd.Body.List {
 		ifs, ok := st.(*ast.IfStmt)
 		if !ok || ifs.Init == nil || !strings.Contains(s.w.Str(ifs.Init), "fw.file.Write(") {
@@ -56,15 +73,42 @@ func c25FlushFailure(s *c02Src) (rollsBack, restores Tri, where string) {
 		n++
 		body := s.w.Str(ifs.Body)
 		where = c02Where(s.w, ifs)
-		if strings.Contains(body, "Truncate(") {
-			rollsBack = Yes
+		isHeader := strings.Contains(s.w.Str(ifs.Init), "fw.header.Serialize()")
+		if !isHeader {
+			blockWrites++
+			if len(ifs.Body.List) == 1 && s.w.Str(ifs.Body.List[0]) == "return rollback(err)" {
+				rolled++
+			}
 		}
-		if strings.Contains(s.w.Str(ifs.Init), "fw.header.Serialize()") && strings.Contains(body, ".Seek(") {
+		if isHeader && strings.Contains(body, "fw.file.Seek(currentPos, io.SeekStart)") {
 			restores = Yes
 		}
 	}
-	if n != 3 {
+	if n != 3 || blockWrites != 2 {
 		return Unknown, Unknown, c02Where(s.w, fd)
+	}
+	switch {
+	case rolled == 2 && rbOK:
+		rollsBack = Yes
+	case rolled == 0 && rbDef == "":
+		rollsBack = No
+	default:
+		rollsBack = Unknown
+	}
+	// Sync must not leave the descriptor inside the header either
+	if restores == Yes {
+		ok := false
+		if sy := s.w.Func("FileWriter", "Sync"); sy != nil {
+			for _, st := range sy.Body.List {
+				if ifs, isIf := st.(*ast.IfStmt); isIf && ifs.Init != nil && strings.Contains(s.w.Str(ifs.Init), "fw.header.Serialize()") &&
+					strings.Contains(s.w.Str(ifs.Body), "fw.file.Seek(0, io.SeekEnd)") {
+					ok = true
+				}
+			}
+		}
+		if !ok {
+			restores = Unknown
+		}
 	}
 	return
 }
